@@ -92,7 +92,50 @@ def _one(tree):
         return dict(tree=tree, status='crash', why=traceback.format_exc()[-1500:])
 
 
+def exclusion_lemma(ctx):
+    """Lemma over the contract of _finalize: with FOLD(0) = D, FOLD(k+1) = R(k) if P(k) else FOLD(k),
+    and at most one active predicate (what _check_and_add_pred_set enforces), FOLD(N) is the rhs of
+    the unique active branch, else the default.  Induction on k: base and step discharged by z3."""
+    import time
+    import z3
+    Int = z3.IntSort()
+    FOLD, P, R = z3.Function('FOLD', Int, Int), z3.Function('P', Int, Int), z3.Function('R', Int, Int)
+    D, N, i, k, j = z3.Ints('D N i k j')
+    uniq = z3.ForAll([j], z3.Implies(z3.And(0 <= j, j < N, j != i), P(j) == 0))
+    claim = lambda kk: z3.And(z3.Implies(z3.And(0 <= i, i < kk, P(i) != 0), FOLD(kk) == R(i)),      # noqa: E731
+                              z3.Implies(z3.Or(i >= kk, i < 0, P(i) == 0), FOLD(kk) == D))
+    rec = FOLD(k + 1) == z3.If(P(k) != 0, R(k), FOLD(k))
+    goals = {
+        'base: FOLD(0) is the default': ([FOLD(0) == D], claim(z3.IntVal(0))),
+        'step: the claim is preserved by one more branch':
+            ([uniq, 0 <= k, k < N, rec, claim(k)], claim(k + 1)),
+        'conclusion: the unique active branch wins, else the default':
+            ([claim(N), 0 <= i, i < N], z3.And(z3.Implies(P(i) != 0, FOLD(N) == R(i)),
+                                               z3.Implies(P(i) == 0, FOLD(N) == D))),
+    }
+    for nm, (hyps, goal) in goals.items():
+        s_ = z3.Solver()
+        s_.set('timeout', 20000)
+        s_.add(*hyps)
+        s_.add(z3.Not(goal))
+        t0 = time.time()
+        r = s_.check()
+        ctx.obligation('C07.lemma:exclusion ' + nm, 'contract of pyrtl.conditional._finalize',
+                       'proved' if r == z3.unsat else 'undecided', 'z3', time.time() - t0,
+                       detail=None if r == z3.unsat else str(r))
+
+
 def run(ctx):
+    import contracts.conditional     # noqa: F401
+    from pyvc.contract import REGISTRY
+    from pyvc import run as prun
+    prun.run_contracts(ctx, [c for c in REGISTRY.values() if 'C07' in c.props], 'contracts.conditional')
+    exclusion_lemma(ctx)
+    ctx.assume('_finalize contract: builder model (contracts/wiremodel.py); every rhs already has the width of '
+               'its target (established by _prepare_for_assignment before it is recorded); predicates are one '
+               'bit; _current_select / _check_and_add_pred_set (the predicate construction and the exclusion '
+               'check): bounded family; induction principle over the number of branches is the meta-argument '
+               'of the exclusion lemma')
     from fam import condtrees as CT
     import random
     trees = []
@@ -148,7 +191,9 @@ def run(ctx):
                      'non-exclusive programs must be rejected (converse not demanded)' % cnt,
                sample=dict(tree=trees[len(trees) // 2]))
     ctx.assume('z3 soundness; spec/netsem.py; reference tree interpreter fam/condtrees.py')
-    return ctx.finish('other', './check C07', ['z3', 'spec/netsem.py', 'elab/n2smt.py'],
+    return ctx.finish('other', './check C07', ['z3', 'pyvc', 'spec/netsem.py', 'elab/n2smt.py'],
+                      'P: _finalize folds any number of (predicate, rhs) branches into the documented select chain '
+                      '(wires, registers with default self, `defaults`, memory write ports) + exclusion lemma; '
                       'bounded stand-in: every enumerated condition tree elaborated by the real '
                       'conditional.py and decided by SMT against the tree interpreter')
 
